@@ -12,7 +12,7 @@ import numpy as np
 EPS = np.finfo(float).eps
 GMAX_LOG = 13.8  # G <= 1e6
 REL_FLOOR = 1e-12
-K_GROWTH = 256.0
+K_GROWTH = 4096.0  # calibrated: thorough runs (25k cases per property) show residuals up to ~450*eps*G; mutants are >= 1e-4
 SINGLE_REL = 1e-4  # a result that went through complex64 storage is involved
 
 
@@ -67,3 +67,16 @@ def close(a, b, rel, scale=None, floor=0.0):
     err = maxabs(a - b)
     bound = rel * scale + floor
     return bool(err <= bound), err, bound
+
+
+def natural_scales(q0, z, profiles, bg=0.0):
+    """Magnitudes that the inputs themselves set for the outputs of a dispersion
+    run: flux ~ max|q0|, conc ~ |bg| + max|q0| * (total resistance of the column).
+    Used as a floor for comparison scales: a source that the mode truncation
+    annihilates leaves fields of pure rounding noise (1e-17), and a tolerance
+    relative to *their* maximum would be meaningless."""
+    Kz = np.asarray(profiles[4], float)
+    dz = np.diff(np.asarray(z, float))
+    R = float(np.sum(dz * (0.5 / Kz[:-1] + 0.5 / Kz[1:])))
+    fs = maxabs(q0)
+    return fs, abs(float(bg)) + fs * R
